@@ -33,6 +33,16 @@ CHECKS = {
          "DESIGN.md section 4 (C02)",
          "restart = fresh store instance on a copy of the directory taken when Close returns (same process, globals re-initialised by NewHStore); tombstone versions adopted after restart as the quantifier allows",
          "reference-model monitor + index-file fault enumeration + hook-controlled shutdown schedules (park/release, yield injection) + race detector"),
+ "C03": ("exploration",
+         "Histories over many tiny data files with GC passes over run-time-enumerated legal ranges (merge on/off, via HStore.GC and via the GC manager), followed by writes, more passes and restarts with index subsets removed; all keys read back against the reference map after every pass and restart, and an independent decoder confirms that each live key's record is where the tree points.",
+         "DESIGN.md section 4 (C03)",
+         "trusted: ref.RefMap, ref record decoder; store background goroutines quiescent before each pass (hook counters); record size <= half the data-file limit (a record larger than a whole data file is outside the quantifier)",
+         "reference-model monitor over generated GC histories + independent on-disk decoder"),
+ "C18": ("exploration",
+         "After every completed pass of the C03 histories an independent scanner inspects all surviving files of the collected range and the appended part of an earlier destination: only current records (once each) or tombstones allowed by the reservation rule may remain; files outside the range and the earlier destination's old prefix are compared by sha1; an identical second pass must release nothing and change nothing.",
+         "DESIGN.md section 4 (C18)",
+         "trusted: ref record scanner, RefMap.LastWrite as definition of the current record; Go QuickLZ decoder used only to identify compressed survivors; non-colliding keys",
+         "offline checker over on-disk state after each observed GC pass (independent record scanner + write-history oracle)"),
 }
 
 NOT_YET = {
